@@ -707,5 +707,58 @@ spec fn wf(&self) -> bool {
 
 } // impl
 
+// ---------------------------------------------------------------------------------------------
+// NewlineWithTrailingNewline: the same lines, plus one empty line when the text ends with a line break.
+
+//@@ EXTRACT file=vendored/src/source_location/newlines.rs anchor=<<<pub struct NewlineWithTrailingNewline<'a> {>>>
+//@@ KEEPSIG
+//@@ END
+
+/// The empty text (`""`).
+#[verifier::external_body]
+fn empty_text<'a>() -> (r: &'a [u8])
+    ensures r@.len() == 0,
+{ &[] }
+
+spec fn ends_with_nl(b: Seq<u8>) -> bool { b.len() > 0 && is_nl(b[b.len() - 1]) }
+
+impl<'a> NewlineWithTrailingNewline<'a> {
+//@@ EXTRACT file=vendored/src/source_location/newlines.rs anchor=<<<pub fn with_offset(input: &'a str, offset: TextSize) -> Self {>>>
+//@@ SIGSUB <<<input: &'a str>>> ==> <<<input: &'a [u8]>>>
+//@@ SIG
+    fn with_offset(input: &'a [u8], offset: TextSize) -> (r: Self)
+        requires offset.raw + input@.len() <= u32::MAX,
+        ensures
+            r.underlying.wf(), r.underlying.text@ == input@, r.underlying.offset == offset,
+            // one extra EMPTY line, placed at the end of the text, exactly when the text ends with CR or LF
+            match r.trailing {
+                Some(l) => ends_with_nl(input@) && l.text@.len() == 0 && l.offset.raw == offset.raw + input@.len(),
+                None => !ends_with_nl(input@),
+            },
+//@@ ENDSIG
+//@@ SUB 1 <<<trailing: if input.ends_with(['\r', '\n']) {>>> ==> <<<trailing: if input.len() > 0 && (input[input.len() - 1] == b'\r' || input[input.len() - 1] == b'\n') {>>>
+//@@ SUB 1 <<<text: "",>>> ==> <<<text: empty_text(),>>>
+//@@ SUB 1 <<<offset: offset + input.text_len(),>>> ==> <<<offset: TextSize { raw: offset.raw + input.len() as u32 },>>>
+//@@ END
+
+//@@ EXTRACT file=vendored/src/source_location/newlines.rs anchor=<<<fn next(&mut self) -> Option<Line<'a>> {>>> nth=2
+//@@ SIG
+    fn next(&mut self) -> (r: Option<Line<'a>>)
+        requires old(self).underlying.wf(),
+        ensures
+            final(self).underlying.wf(),
+            // while the text lasts: the underlying iterator's line, the extra line untouched
+            old(self).underlying.text@.len() > 0 ==> final(self).trailing == old(self).trailing
+                && r.is_some() && r.unwrap().text@ == old(self).underlying.text@.take(fl(old(self).underlying.text@))
+                && r.unwrap().offset == old(self).underlying.offset
+                && final(self).underlying.text@ == old(self).underlying.text@.skip(fl(old(self).underlying.text@)),
+            // afterwards: the extra line exactly once, then nothing
+            old(self).underlying.text@.len() == 0 ==> r == old(self).trailing && final(self).trailing.is_none()
+                && final(self).underlying.text@.len() == 0,
+//@@ ENDSIG
+//@@ SUB 1 <<<self.underlying.next().or_else(|| self.trailing.take())>>> ==> <<<match self.underlying.next() { Some(l) => Some(l), None => self.trailing.take() }>>>
+//@@ END
+}
+
 } // verus!
 fn main() {}
